@@ -198,6 +198,8 @@ func Main(args []string) int {
 		return selftestMain(args[1:])
 	case "minimise":
 		return minimiseMain(args[1:])
+	case "eccase":
+		return ECCaseMain()
 	}
 	fmt.Fprintln(os.Stderr, "unknown command", args[0])
 	return 2
